@@ -4,9 +4,9 @@ in its worktree, then run the listed checks (default: the property itself) again
 import json, os, shutil, subprocess, sys, time
 prop, n = sys.argv[1], sys.argv[2]
 checks = sys.argv[3:] or [prop]
-wt = f"/tmp/mut/{prop}"
-out = f"{wt}/out"
-env = dict(os.environ, GOFLAGS="-mod=mod", GOPROXY="off", GOSUMDB="off")
+wt = f"/tmp/mut/{prop}/wt" if os.path.isdir(f"/tmp/mut/{prop}/wt") else f"/tmp/mut/{prop}"
+out = f"/tmp/mut/{prop}/out"
+env = dict(os.environ, GOFLAGS="-mod=mod", GOPROXY="off", GOSUMDB="off", GOTOOLCHAIN="local")
 def sh(cmd, cwd=None, timeout=1800):
     p = subprocess.run(cmd, cwd=cwd, env=env, shell=True, stdout=subprocess.PIPE, stderr=subprocess.STDOUT, text=True, timeout=timeout)
     return p.returncode, p.stdout
@@ -15,13 +15,41 @@ demo = [f for f in os.listdir(out) if f.startswith(f"mut{n}_demo")]
 res = {"property": prop, "mutation": n, "patch": patch, "demo": demo}
 sh("git checkout -- . && git clean -fdq -e out", wt)
 # demo location: *_test.go -> package dir from its 'package' clause
+import re
+def pkg_of(src):
+    t = open(src).read()
+    if "package ranges" in t: return "ranges"
+    if "package fastwalk" in t: return "cmd/seqls/internal/fastwalk"
+    if re.search(r"^package main", t, re.M):
+        return {"C20": "exp/cpp/export", "C18": "cmd/seqinfo", "C17": "cmd/seqls"}.get(prop, ".")
+    return "."
+gotests = [d for d in demo if d.endswith("_test.go")]
+scripts = [d for d in demo if d.endswith(".sh")]
+testnames = []
+for d in gotests:
+    testnames += re.findall(r"^func (Test\w+)", open(f"{out}/{d}").read(), re.M)
+RUNPAT = "^(" + "|".join(testnames) + ")$" if testnames else "NONE"
+def run_demo():
+    """returns (passed, output)"""
+    ok, outp = True, ""
+    if gotests:
+        placed = place()
+        pkgs = " ".join(sorted(set("./" + p if p != "." else "." for p, _ in placed))) or "."
+        rc, o = sh(f"go test -vet=off -count=1 -run '{RUNPAT}' {pkgs}", wt, timeout=3000)
+        place(remove=True)
+        ok = ok and rc == 0; outp += o
+    if scripts and not gotests:
+        for sc in scripts:
+            rc, o = sh(f"bash {out}/{sc}", out, timeout=3000)
+            ok = ok and rc == 0; outp += o
+    return ok, outp
 def place(remove=False):
     placed = []
-    for d in demo:
+    for d in gotests:
         src = f"{out}/{d}"
         if os.path.isdir(src):
             continue
-        pkg = "ranges" if "package ranges" in open(src).read() else "."
+        pkg = pkg_of(src)
         dst = os.path.join(wt, pkg, d)
         if remove:
             if os.path.exists(dst): os.unlink(dst)
@@ -29,20 +57,15 @@ def place(remove=False):
             shutil.copyfile(src, dst)
         placed.append((pkg, d))
     return placed
-placed = place()
-pkgs = " ".join(sorted(set("./" + p if p != "." else "." for p, _ in placed))) or "."
-rc0, o0 = sh(f"go test -vet=off -count=1 -run 'Mut{n}|mut{n}' {pkgs}", wt)
-res["demo_passes_clean"] = (rc0 == 0)
-place(remove=True)
+ok0, o0 = run_demo()
+res["demo_passes_clean"] = ok0
 rc, o = sh(f"git apply {patch}", wt)
 res["applies"] = (rc == 0)
 rc1, o1 = sh("go build ./... && go test -vet=off -count=1 ./...", wt)
 res["suite_green_with_patch"] = (rc1 == 0)
-place()
-rc2, o2 = sh(f"go test -vet=off -count=1 -run 'Mut{n}|mut{n}' {pkgs}", wt)
-res["demo_fails_with_patch"] = (rc2 != 0)
+ok2, o2 = run_demo()
+res["demo_fails_with_patch"] = (not ok2)
 res["demo_output_tail"] = o2[-600:]
-place(remove=True)
 sh("git checkout -- .", wt)
 # now against /repo
 rc, o = sh(f"git -C /repo apply {patch}")
@@ -51,7 +74,7 @@ res["checks"] = {}
 if rc == 0:
     for c in checks:
         t0 = time.time()
-        rcc, oc = sh(f"./check {c} --tier quick", "/verif")
+        rcc, oc = sh(f"./check {c} --tier quick", "/verif", timeout=3000)
         line = [l for l in oc.split("\n") if l.startswith("VIOLATION")]
         res["checks"][c] = {"exit": rcc, "violation": line[0] if line else None, "wall_s": round(time.time() - t0, 1)}
         if line and "replay=" in line[0]:
@@ -69,4 +92,5 @@ shutil.copyfile(patch, f"{sd}/patch.diff")
 for d in demo:
     if os.path.isfile(f"{out}/{d}"): shutil.copyfile(f"{out}/{d}", f"{sd}/{d}")
 if os.path.exists(f"{out}/mut{n}.md"): shutil.copyfile(f"{out}/mut{n}.md", f"{sd}/notes.md")
+elif os.path.exists(f"{out}/notes.md"): shutil.copyfile(f"{out}/notes.md", f"{sd}/notes.md")
 json.dump(res, open(f"{sd}/meta.json", "w"), indent=1)
